@@ -490,7 +490,7 @@ theorem Sim.aOrdF (h : Sim P idOf s t) (hI : Inv P idOf s) {c m0 R pre}
 theorem Sim.nodeOkF (h : Sim P idOf s t) (hI : Inv P idOf s) {c m0}
     (hobs : ∀ mc, s.memos c = some mc → mc.obs = m0.obs ∧ mc.dur = m0.dur ∧ mc.va ≤ m0.va)
     (ok : NodeOk P idOf s c m0) : NodeOk P idOf t c m0 := by
-  refine ⟨h.obsOkF hI ok.obs, ok.origin, ?_, ok.rank, ?_, ?_, ok.hd, ?_, ok.hsrc, ok.outedge, ok.never, ?_⟩
+  refine ⟨h.obsOkF hI ok.obs, ok.origin, ?_, ok.rank, ?_, ?_, ok.hd, ?_, ok.hsrc, ok.outedge, ok.never, ?_, ok.shape⟩
   · intro hs o ho hout
     exact h.sokDepF (ok.ksok ((h.sokIff m0).mp hs) o ho hout)
   · intro o ho hout
@@ -701,7 +701,7 @@ theorem nodeOk_reva {u : State} {q : Nat} {m : Memo} (hI : Inv P idOf u) (ok : N
       have h2 : m.deepAt < w := h.1
       omega
   refine ⟨hobs, ok.origin, fun _ => ok.ksok hsok, ok.rank, ?_, ok.hmemo, ok.hd, ?_, ok.hsrc, ok.outedge, ok.never,
-    ok.m4⟩
+    ok.m4, ok.shape⟩
   · intro o ho hout
     exact structAt_reva hI hsh (Nat.le_refl _) (ok.sobs o ho hout)
   · obtain ⟨R, h1, h2, h3, h4, h5⟩ := ok.rep
@@ -1039,7 +1039,8 @@ theorem exMsok : memoSok exS 0 := ⟨exM, rfl, Or.inr (by decide)⟩
 theorem exPre : preOf (fun _ => 0) (RevSemEx.P.node 0) exM.obs = [o1] := by decide
 
 theorem exNodeOk : NodeOk RevSemEx.P (fun _ => 0) exS 0 exM := by
-  refine ⟨exObsOk, rfl, ?_, ?_, ?_, ?_, ?_, ?_, ?_, ?_, ?_, Or.inl (Nat.le_refl _)⟩
+  refine ⟨exObsOk, rfl, ?_, ?_, ?_, ?_, ?_, ?_, ?_, ?_, ?_, Or.inl (Nat.le_refl _),
+    fun o ho hout => by obtain rfl := ex_o ho hout; rfl⟩
   · intro _ o ho hout; obtain rfl := ex_o ho hout; trivial
   · intro o ho hout; obtain rfl := ex_o ho hout; trivial
   · intro o ho hout; obtain rfl := ex_o ho hout; exact (exAt 1 (Nat.le_refl _)).2
